@@ -28,7 +28,9 @@ From DhtGen Require Import Params.
 Section RunQuery.
 Import Query.
 Inductive qpoint := QPPre | QPWrite (i : nat) | QPGate (i : nat) | QPRet.
-Inductive qaction := QAReply | QACancel | QAClose | QABlock | QANop.
+Inductive qaction := QAReply | QACancel | QAClose | QABlock | QANop
+  | QAStray.   (* a datagram that is NOT the reply of this query: another source address (port, IP, zone) or another
+                  transaction id.  The serve loop finds no transaction under its key: no event of the query's model *)
 
 Record qscn := mkScn {
   sc_tries : nat;                 (* QueryInput.NumTries as passed (0 = default) *)
@@ -63,6 +65,7 @@ Definition action_label (a : qaction) : option label :=
   | QAReply => Some EReplyArrives | QACancel => Some ECtxCancel | QAClose => Some EServerClose
   | QABlock => Some EBlockDest            (* Server.SetIPBlockList covering the destination *)
   | QANop => None
+  | QAStray => None
   end.
 (* after these the harness's delay function returns an hour: a cancellation, or a reply the server can take *)
 Definition terminating (s : qstate) (a : qaction) : bool :=
